@@ -170,6 +170,24 @@ def run(ctx, rule="C01.7"):
         ctx.ob(R, "post_process", ok,
                "post_process clears FF for ASSERT_CONCURRENT_SPEND targets and for spends whose child Coin(own id, ph, amount) is spent in the bundle",
                found=coins)
+        # ANY output spent in the same bundle commits to the spend's coin id: the child examined is built from every element of
+        # s.create_coin (not only the singleton successor), each looked up in spent_coins
+        from .. import apnf as _ap
+        exact = []
+        for bi, blk in enumerate(b.blocks):
+            for st in blk["s"]:
+                if st["k"] == "assign" and st["rv"]["k"] == "agg" and st["rv"].get("adt") == "chia_protocol::coin::Coin":
+                    exact.append((bi, dict(zip(st["rv"]["fields"], [str(_ap.N(strip_all(b.operand_term(o)))) for o in st["rv"]["ops"]]))))
+        sp_ = "('next', ('.spends', 'bundle'))"
+        cc_ = "('next', ('.create_coin', %s))" % sp_
+        ok2 = len(exact) == 1 and exact[0][1] == {"parent_coin_info": "('.coin_id', %s)" % sp_, "puzzle_hash": "('.puzzle_hash', %s)" % cc_,
+                                                  "amount": "('.amount', %s)" % cc_} and b.in_cycle(exact[0][0])
+        ctx.ob(R, "post_process:every-output", ok2,
+               "the ephemeral-output test of post_process builds Coin(spend.coin_id, cc.puzzle_hash, cc.amount) for each cc in spend.create_coin",
+               found=[e[1] for e in exact])
+        cks = [bi for bi, n, t in b.calls() if U.flat(n).endswith("HashMap::contains_key") and b.in_cycle(bi)]
+        ctx.ob(R, "post_process:lookup-per-output", ok2 and len(cks) == 1 and b.dominates(exact[0][0], cks[0]),
+               "each child coin id is looked up in spent_coins inside the loop over the outputs")
     # hooks are invoked: new_spend before parse_conditions; condition once per parsed condition; post_spend after the loop
     pc = RG.parse_conditions_body(fb)
     if pc is not None:
